@@ -192,3 +192,46 @@ Definition F03 : sf := S754_finite false 5404319552844595 (-54).         (* 0.3 
 Lemma literals_valid :
   forallb fvalid [F0; F1; F5; F10; F50; F100; Fhalf; F1e16; F1e308; Fm1e308; F2p53; F01; F03] = true.
 Proof. vm_compute. reflexivity. Qed.
+
+(* ------------------------------------------------- int / int against float / float
+   For ints that float() represents exactly, CPython's int true division (one rounding of
+   the exact quotient) must coincide with the IEEE division of the two floats.  Checked by
+   the kernel on a finite grid (the bound is in the statement): all pairs from
+   -60..60 and a list of 53-bit boundary values. *)
+Definition zgrid : list Z :=
+  map (fun n => Z.of_nat n - 60) (seq 0 121) ++
+  [2 ^ 53 - 1; 2 ^ 53; 2 ^ 52 + 1; - (2 ^ 53 - 1); 3 ^ 33; 10 ^ 15 + 7; 2 ^ 40 + 3; 999999999999999; 123456789].
+
+Definition sf_eqb (a b : sf) : bool :=
+  match a, b with
+  | S754_zero s, S754_zero t => Bool.eqb s t
+  | S754_infinity s, S754_infinity t => Bool.eqb s t
+  | S754_nan, S754_nan => true
+  | S754_finite s m e, S754_finite t n f => Bool.eqb s t && Pos.eqb m n && Z.eqb e f
+  | _, _ => false
+  end.
+
+Definition truediv_agrees (a b : Z) : bool :=
+  if b =? 0 then true else
+  match int_truediv a b, z2f a, z2f b with
+  | Some q, Some fa, Some fb =>
+      (* 0 / negative is -0.0 in both; everything else bit for bit *)
+      sf_eqb q (fdiv fa fb)
+  | _, _, _ => false
+  end.
+
+Lemma int_truediv_grid :
+  forallb (fun a => forallb (fun b => truediv_agrees a b) zgrid) zgrid = true.
+Proof. vm_compute. reflexivity. Qed.
+
+Lemma int_truediv_grid_all a b :
+  In a zgrid -> In b zgrid -> b <> 0 ->
+  exists q fa fb, int_truediv a b = Some q /\ z2f a = Some fa /\ z2f b = Some fb /\ sf_eqb q (fdiv fa fb) = true.
+Proof.
+  intros Ha Hb Hn. pose proof int_truediv_grid as G.
+  rewrite forallb_forall in G. specialize (G a Ha). rewrite forallb_forall in G. specialize (G b Hb).
+  unfold truediv_agrees in G. destruct (b =? 0) eqn:E; [apply Z.eqb_eq in E; contradiction|].
+  destruct (int_truediv a b) as [q|]; [|discriminate].
+  destruct (z2f a) as [fa|]; [|discriminate]. destruct (z2f b) as [fb|]; [|discriminate].
+  exists q, fa, fb. auto.
+Qed.
